@@ -154,10 +154,12 @@ class RuleCtx:
     # evidence=True instead report a construct that is wrong wherever it occurs (a write to a caller-owned object found by the
     # ownership analysis, a handler that swallows an error, module-level state, a determinant formed, a path on which a phase is
     # skipped ...): those are never subject to the abstention below.
-    # calibrated on the independent rounds (DESIGN 11.6): 1 of 114 seeded regressions and 36 of 76 equivalent re-formulations
-    # re-write a function this much (statement lines compared with local names collapsed)
-    REWRITE_MIN_UNMATCHED = 12
-    REWRITE_MAX_RETAINED = 0.70
+    # A function counts as re-written when at least REWRITE_MIN_LOST of its reference statement lines are gone and fewer than
+    # REWRITE_MAX_RETAINED of them survive (lines compared with local names collapsed; added lines do not count: a regression
+    # typically adds or tweaks a few statements, a re-formulation replaces them).  Calibrated on the independent rounds
+    # (DESIGN 11.6): 3 of 114 seeded regressions and 52 of 76 equivalent re-formulations cross the line.
+    REWRITE_MIN_LOST = 5
+    REWRITE_MAX_RETAINED = 0.80
 
     def _reformulated(self, site) -> str:
         """Non-empty when the rule is a shape template and a function it looks at has been re-written beyond recognition
@@ -175,7 +177,7 @@ class RuleCtx:
             ana.__dict__["_ref_distance"] = dist
         if not dist:
             return ""
-        heavy = {q: v for q, v in dist.items() if v[0] >= self.REWRITE_MIN_UNMATCHED and v[3] < self.REWRITE_MAX_RETAINED}
+        heavy = {q: v for q, v in dist.items() if v[4] >= self.REWRITE_MIN_LOST and v[3] < self.REWRITE_MAX_RETAINED}
         if not heavy:
             return ""
         cache = ana.__dict__.setdefault("_reach_cache", {})
@@ -191,10 +193,9 @@ class RuleCtx:
         rel = [q for q in heavy if q in reach or inv.get(q) in reach]
         if not rel:
             return ""
-        q = sorted(rel, key=lambda k: -heavy[k][0])[0]
-        u, n, r = heavy[q][:3]
-        return (f"{q.split('fast_ticc.')[-1]} has been re-written ({u} statement lines differ from its {n}-line reference formulation, "
-                f"{heavy[q][3]:.0%} of the reference statements survive)")
+        q = sorted(rel, key=lambda k: -heavy[k][4])[0]
+        return (f"{q.split('fast_ticc.')[-1]} has been re-written ({heavy[q][4]} of its {heavy[q][1]} reference statement lines are gone, "
+                f"{heavy[q][3]:.0%} survive)")
 
     def _foreign_combinators(self, site):
         if not isinstance(site, FuncInfo):
